@@ -11,13 +11,6 @@ open Dino Dino.Dynamics
 set_option linter.unusedSectionVars false
 set_option linter.unusedSimpArgs false
 
-/-- close a scalar identity between products of the factors -/
-macro "scal_eq" hg:term : tactic => `(tactic| (
-  have h1 := ($hg).l_ne; have h2 := ($hg).t_ne; have h3 := ($hg).θ_ne
-  try simp only [Scale.wF, Scale.wV, Scale.wA, Scale.wE, Scale.wR, Scale.wL2, one_div]
-  try field_simp
-  try ring))
-
 /-- pointwise homogeneity in the nodal algebra / modal module: pull every factor to the front of
  every monomial, then compare the coefficients -/
 macro "pw" hg:term : tactic => `(tactic| (
